@@ -69,8 +69,8 @@ def x_prog(ctx, case):
     env = run.env
     raised = env.raised
     base = [r for r in raised if r[0] in programs.BASE_KINDS]
-    nontrivial = bool(raised) or bool(env.tags("expect_mismatch", "force")) or \
-        programs.is_decor_skip(program)
+    forced = bool(env.tags("expect_mismatch", "force")) or bool(program.get("force_attr"))
+    nontrivial = bool(raised) or forced or programs.is_decor_skip(program)
     names = log.names()
     detail = lambda: {"events": names, "raised": [(k, t) for k, t, _ in raised],  # noqa: E731
                       "propagated": repr(run.propagated)}
@@ -110,7 +110,7 @@ def x_prog(ctx, case):
         ctx.check(run.propagated is None, "no-unexpected-raise", detail)
     # ---- a raised exception never yields success -----------------------------------
     if outcome is not None and flavour in ("ext", "real", "py27", "none", "twisted"):
-        if raised or env.tags("expect_mismatch", "force"):
+        if raised or forced:
             ctx.check(outcome != "addSuccess", "no-success-when-something-raised",
                       lambda: {"outcome": outcome, **detail()})
         elif not programs.is_decor_skip(program) and program.get("upcall_su", True) \
